@@ -50,3 +50,27 @@ PROPS["C18"] = dict(
     assumptions=["values added to the history are unique, so its contents are observable through Current/Back/Forward on a copy",
                  "feed items are tagged dummy Tangibles; identity is pointer identity"],
 )
+
+PROPS["C17"] = dict(
+    pkg="c17",
+    level="exploration",
+    rule=("JSON objects generated as text (numbers as literals: negative, fractional, -0, exponents, 2^53±1, 2^63, 2^64-1, 2^64, 1e19, "
+          "1e300, random int64/uint64/float64; strings: control characters, RFC 3339 variants, URLs, media types valid and invalid; null, "
+          "booleans, arrays, objects), decoded by encoding/json; every key and one absent key is probed with every accessor "
+          "(GetAny/String/Number/Object/List/Time/URL/MediaType/Markup) and compared with an independent three-class reference "
+          "(value/absent/wrong; big-float exactness for numbers). Non-trivial: object has at least one value of a kind marked '!' "
+          "(null, negative/fractional/huge/above-2^53 number, empty/control-bearing string, array, object). Distinct = distinct JSON text."),
+    units=[
+        rapid("Prop", "TestProp", 400000, 6000000),
+        fuzz("Fuzz", "FuzzAccessors", "90s"),
+    ],
+    manifest=dict(
+        text=("Differential property test of every typed accessor against a reference classifier written from the statement, over "
+              "generated JSON text (so number literals are controlled exactly); thorough adds a coverage-guided fuzz campaign over raw "
+              "JSON bytes with the same oracle. Sampled, not exhaustive."),
+        design_ref="DESIGN.md §3 C17",
+        note=("Trusted: encoding/json's decoding, math/big, and (for the 'parsed' clause only) agreement with time.Parse/url.Parse on "
+              "the sanitised string; generator-built timestamps are additionally checked against time.Date."),
+        technique="property-based differential testing (rapid) + native go fuzzing with the same oracle",
+    ),
+)
